@@ -373,7 +373,7 @@ class Skeleton(CanDictSerialize, CanDictDeserialize):
 
     def copy(self) -> Skeleton:
         """Copy a `cai_causal_graph.causal_graph.Skeleton` instance."""
-        new_skeleton = self.__class__.from_dict(self.to_dict())
+        new_skeleton = self.__class__.from_dict(self.to_dict(), graph_class=self._graph.__class__)
         assert isinstance(new_skeleton, self.__class__)  # for linting and sanity check
         return new_skeleton
 
